@@ -34,6 +34,11 @@ Theorem C09_side_arity :
   FiberArms.yield_at_most_one = true.
 Proof. repeat split; reflexivity. Qed.
 
+(* the interpreter's cached registers (ip, active_chunk, active_module) are not state of M (Fibers.v, header): that is
+   sound only if every switch site restores the SAME register set, all three through load_frame *)
+Theorem C09_side_registers : FiberArms.switch_sites_restore_same_registers = true.
+Proof. reflexivity. Qed.
+
 (* --- the property: M delivers what S delivers, for every program = every interleaving --- *)
 Theorem C09_transfer_faithful : forall p, eval_mech pn p = eval_coroutine p.
 Proof. exact transfer_faithful. Qed.
@@ -77,6 +82,7 @@ Print Assumptions C09_side_checks.
 Print Assumptions C09_side_messages.
 Print Assumptions C09_side_handover.
 Print Assumptions C09_side_arity.
+Print Assumptions C09_side_registers.
 Print Assumptions C09_transfer_faithful.
 Print Assumptions C09_resume_without_arg_refuted.
 Print Assumptions C09_errors_leave_state.
